@@ -57,4 +57,19 @@ for seq in itertools.product(LINES, repeat=L):
         extra = [o for o in rep if o not in seen and o not in (FQDN, FQDN.split(".")[0], ".".join(FQDN.split(".")[1:]))]
         if extra:
             fail(violation="the reported mapping lists an original that never occurred", kind=kind, extra=extra, lines=text)
+# ---- width-preserving substitution (used for column-aligned output): the address at line start, middle and at the very end of a line
+for pos_line in ("10.1.2.3 rest", "a 10.1.2.3 rest", "a b 10.1.2.3", "10.1.2.3"):
+    cl = Cleaner(conf, {}, FQDN)
+    plain = cl.clean_content(["first 10.1.2.3 seen"])
+    try:
+        out = cl.clean_content([pos_line, "again 10.1.2.3 here"], width=True)
+    except Exception:
+        continue          # the content is rejected as a whole: nothing is emitted
+    n += 1
+    if any("10.1.2.3" in l for l in out):
+        fail(violation="an original address survives width-preserving substitution", line=pos_line, out=out)
+    rep = dict((m["original"], m["obfuscated"]) for m in cl.obfuscate["ip"].mapping())
+    sub = plain[0].split(" ")[1]
+    if rep.get("10.1.2.3") != sub or not all(sub in l for l in out):
+        fail(violation="width-preserving substitution is not consistent with the substitute issued earlier", line=pos_line, out=out, issued=sub, reported=rep)
 print(json.dumps({"ok": True, "max_lines": L, "sequences": n, "line_shapes": len(LINES)}))
